@@ -223,7 +223,7 @@ const prelude = `(set-option :produce-models true)
 (declare-fun scmp (Str Str) Int)
 (declare-fun str!empty () Str)
 (assert (= (slen str!empty) 0))
-(assert (forall ((s Str)) (! (>= (slen s) 0) :pattern ((slen s)))))
+(assert (forall ((s Str)) (! (and (>= (slen s) 0) (<= (slen s) 9223372036854775807)) :pattern ((slen s)))))
 (declare-datatypes ((Slice 0)) (((mk-slice (sbase Int) (soff Int) (slen_ Int) (scap Int)))))
 (define-fun tdiv ((a Int) (b Int)) Int (ite (>= a 0) (ite (> b 0) (div a b) (- (div a (- b)))) (ite (> b 0) (- (div (- a) b)) (div (- a) (- b)))))
 (define-fun tmod ((a Int) (b Int)) Int (- a (* b (tdiv a b))))
